@@ -51,7 +51,19 @@ type Plan struct {
 	// SlowReadUs: a ReadIndex client waits up to this long between the completion of
 	// ReadIndex and its ReadLocalNode / NAReadLocalNode call (the API allows any delay)
 	SlowReadUs int
+	// non-default but legal configurations (every replica of the shard gets the same)
+	EntryCompress bool // Config.EntryCompressionType = Snappy
+	SnapCompress  bool // Config.SnapshotCompressionType = Snappy
+	MaxInMemBytes uint64 // Config.MaxInMemLogSize (0 = unlimited): proposals are rate limited
+	NoCheckQuorum bool
+	NotifyCommit  bool // NodeHostConfig.NotifyCommit: async proposals report Committed before Completed
+	PadBytes      int  // commands carry this many extra (compressible) bytes
+	// Witness: host Hosts-1 joins as a witness (votes, stores metadata only, has no state machine)
+	Witness bool
 }
+
+// special reports whether host index i runs the non-voting member or the witness
+func (p Plan) special(i int) bool { return (p.NonVoting || p.Witness) && i == p.Hosts-1 }
 
 type FaultKind int
 
@@ -127,6 +139,8 @@ type Op struct {
 	Outcome string // completed | failed:<err> | dropped | rejected | timeout | terminated
 	Mode    string
 	Index   uint64
+	// CommitNotified: the request delivered a Committed notification (NotifyCommit)
+	CommitNotified bool
 }
 
 type Result struct {
@@ -186,6 +200,27 @@ func (sm *sendMonitor) onSend(from, to string, m pb.Message) {
 	sm.mu.Lock()
 	sm.counts[m.Type.String()]++
 	sm.mu.Unlock()
+	// C18 at the NodeHost level: the non-voting member / the witness never campaigns and
+	// never acts as a leader; a witness is sent entry metadata and membership changes only
+	if pl := sm.res.Plan; (pl.NonVoting || pl.Witness) && m.ShardID == shardID {
+		special := uint64(pl.Hosts)
+		if m.From == special {
+			switch m.Type {
+			case pb.Replicate, pb.Heartbeat, pb.InstallSnapshot, pb.TimeoutNow:
+				sm.res.violate("non-full-member-acts-as-leader", "replica %d (non-voting %v, witness %v) sends %s in term %d", m.From, pl.NonVoting, pl.Witness, m.Type, m.Term)
+			case pb.RequestVote, pb.RequestPreVote:
+				sm.res.violate("non-full-member-campaigns", "replica %d (non-voting %v, witness %v) sends %s in term %d", m.From, pl.NonVoting, pl.Witness, m.Type, m.Term)
+			}
+		}
+		if pl.Witness && m.To == special && m.Type == pb.Replicate {
+			for _, e := range m.Entries {
+				if e.Type != pb.ConfigChangeEntry && (e.Type != pb.MetadataEntry || len(e.Cmd) > 0) {
+					sm.res.violate("payload-sent-to-witness", "replica %d sends entry %d of type %s with %d payload bytes to witness %d", m.From, e.Index, e.Type, len(e.Cmd), m.To)
+					break
+				}
+			}
+		}
+	}
 	if m.Type == pb.RequestPreVote || m.Type == pb.RequestPreVoteResp || m.Term == 0 {
 		return
 	}
@@ -258,6 +293,16 @@ func (p Plan) shardConfig(replica uint64) cfgBox {
 	}
 	c.PreVote = p.PreVote
 	c.Quiesce = p.Quiesce
+	if p.EntryCompress {
+		c.EntryCompressionType = config.Snappy
+	}
+	if p.SnapCompress {
+		c.SnapshotCompressionType = config.Snappy
+	}
+	c.MaxInMemLogSize = p.MaxInMemBytes
+	if p.NoCheckQuorum {
+		c.CheckQuorum = false
+	}
 	return cfgBox{c}
 }
 
@@ -301,7 +346,7 @@ func RunPlan(p Plan) *Result {
 	rec.Widen = time.Duration(p.WidenUs) * time.Microsecond
 	rec.SlowSnapshot = time.Duration(p.SlowSnapMs) * time.Millisecond
 	rec.SlowRecover = time.Duration(p.SlowRecoverMs) * time.Millisecond
-	c := NewCluster(ClusterOptions{Hosts: p.Hosts, Tan: p.Tan, Seed: 7, RTTms: 2})
+	c := NewCluster(ClusterOptions{Hosts: p.Hosts, Tan: p.Tan, Seed: 7, RTTms: 2, NotifyCommit: p.NotifyCommit})
 	res := &Result{Plan: p, Rec: rec, Flags: map[string]int{}, Cluster: c}
 	res.sent = newSendMonitor(res, c)
 	c.Net.OnSend = res.sent.onSend
@@ -310,7 +355,7 @@ func RunPlan(p Plan) *Result {
 	}
 	spec := NewShardSpec(shardID, p.Kind, rec)
 	voters := p.Hosts
-	if p.NonVoting {
+	if p.NonVoting || p.Witness {
 		voters = p.Hosts - 1
 	}
 	members := c.Members(voters)
@@ -318,6 +363,9 @@ func RunPlan(p Plan) *Result {
 		h.Mon.OnSnapshotRecord = rec.SnapshotCreated
 		h.Mon.OnSnapshotInstalled = rec.SnapshotInstalled
 		h.Mon.OnViolation = res.violate
+		if p.Witness && h.Idx == p.Hosts-1 {
+			h.Mon.Witness = map[nodeKey]bool{{shardID, uint64(p.Hosts)}: true}
+		}
 		if err := h.Start(); err != nil {
 			res.violate("harness-nodehost-start-failed", "%v", err)
 			return res
@@ -341,6 +389,12 @@ func RunPlan(p Plan) *Result {
 			cfg.IsNonVoting = true
 			return h.StartReplica(spec, nil, true, cfg)
 		}
+		if p.Witness && h.Idx == p.Hosts-1 {
+			cfg := p.shardConfig(rid).Config
+			cfg.IsWitness = true
+			cfg.SnapshotEntries = 0 // (a witness must not be configured to take snapshots)
+			return h.StartReplica(spec, nil, true, cfg)
+		}
 		return h.StartReplica(spec, members, false, p.shardConfig(rid).Config)
 	}
 	for i := 0; i < voters; i++ {
@@ -361,6 +415,19 @@ func RunPlan(p Plan) *Result {
 			_ = startReplica(c.Hosts[p.Hosts-1])
 			res.flag("nonvoting-joined")
 		}
+	}
+	if p.Witness {
+		ctx, cancel := context.WithTimeout(context.Background(), 5*time.Second)
+		err := c.Hosts[0].NH.SyncRequestAddWitness(ctx, shardID, uint64(p.Hosts), c.Hosts[p.Hosts-1].Addr, 0)
+		cancel()
+		if err == nil {
+			_ = startReplica(c.Hosts[p.Hosts-1])
+			res.flag("witness-joined")
+		}
+	}
+	pad := ""
+	if p.PadBytes > 0 {
+		pad = "|" + strings.Repeat("abcdefgh", p.PadBytes/8+1)[:p.PadBytes]
 	}
 
 	var opMu sync.Mutex
@@ -460,7 +527,7 @@ func RunPlan(p Plan) *Result {
 					continue
 				}
 				val := fmt.Sprintf("c%dv%d", ci, atomic.AddInt64(&valCtr, 1))
-				cmd := []byte("P|" + key + "|" + val)
+				cmd := []byte("P|" + key + "|" + val + pad)
 				op := addOp(&Op{Client: ci, Host: hi, Write: true, Key: key, Val: val, Call: Now()})
 				// (on-disk state machines must use NoOP sessions: documented, ProposeSession panics)
 				if p.Sessions && p.Kind != KindOnDisk && !async {
@@ -505,13 +572,27 @@ func RunPlan(p Plan) *Result {
 						op.Outcome, op.Ret = "notproposed", Now()
 						continue
 					}
-					r, got := awaitResult(rs, timeout)
-					if !got {
-						res.violate("no-terminal-result", "Propose %q on host %d (timeout %v) delivered no result within the deadline plus 10 s", cmd, hi, timeout)
+					r, code, notified := awaitResultX(rs, timeout)
+					op.CommitNotified = notified
+					if notified {
+						res.flag("commit-notified")
+					}
+					if code != awaitOK {
+						if code == awaitExtra {
+							res.violate("two-results", "Propose %q on host %d: a further result (%s) after the terminal one / a second Committed notification", cmd, hi, resultOutcome(r))
+						} else {
+							res.violate("no-terminal-result", "Propose %q on host %d (timeout %v) delivered no result within the deadline plus 10 s", cmd, hi, timeout)
+						}
 						op.Outcome, op.Ret = "noresult", Now()
 						continue
 					}
 					op.Outcome, op.Ret = resultOutcome(r), Now()
+					if notified && r.Dropped() {
+						res.violate("committed-then-dropped", "Propose %q on host %d was reported Committed and then Dropped", cmd, hi)
+					}
+					if !p.NotifyCommit && notified {
+						res.violate("two-results", "Propose %q on host %d: Committed notification although NotifyCommit is off", cmd, hi)
+					}
 					if r.Completed() {
 						op.Index = r.GetResult().Value
 						if string(r.GetResult().Data) != "R:"+string(cmd) {
@@ -815,18 +896,51 @@ func (res *Result) finalAgreement() {
 // accepted request gets one by tick driven expiry shortly after its deadline at
 // the latest (C12). The margin is generous because ticks are wall clock driven.
 func awaitResult(rs *dragonboat.RequestState, timeout time.Duration) (dragonboat.RequestResult, bool) {
-	select {
-	case r := <-rs.ResultC():
-		// a second result on the same request is a violation; it would be sitting in the
-		// channel by now or arrive while the request object is still ours
+	r, got, _ := awaitResultC(rs, timeout)
+	return r, got
+}
+
+// awaitResultC additionally reports whether a Committed notification preceded the
+// terminal result (NodeHostConfig.NotifyCommit). More than one Committed
+// notification, or anything after the terminal result, counts as "no single
+// terminal result" (got == false with a result code set).
+func awaitResultC(rs *dragonboat.RequestState, timeout time.Duration) (dragonboat.RequestResult, bool, bool) {
+	r, code, committed := awaitResultX(rs, timeout)
+	return r, code == awaitOK, committed
+}
+
+const (
+	awaitOK    = iota // exactly one terminal result
+	awaitNone         // no terminal result within the deadline plus 10 s
+	awaitExtra        // a further result after the terminal one, or a second Committed notification
+)
+
+// (RequestResult.Committed() is also true for a Completed result: a notification is
+// "committed and not completed")
+func awaitResultX(rs *dragonboat.RequestState, timeout time.Duration) (dragonboat.RequestResult, int, bool) {
+	committed := false
+	deadline := time.After(timeout + 10*time.Second)
+	for {
 		select {
-		case r2 := <-rs.ResultC():
-			return dragonboat.RequestResult{}, r2.Completed() && false
-		default:
+		case r := <-rs.ResultC():
+			if r.Committed() && !r.Completed() {
+				if committed {
+					return r, awaitExtra, true
+				}
+				committed = true
+				continue
+			}
+			// a second result on the same request is a violation; it would be sitting in the
+			// channel by now or arrive while the request object is still ours
+			select {
+			case r2 := <-rs.ResultC():
+				return r2, awaitExtra, committed
+			default:
+			}
+			return r, awaitOK, committed
+		case <-deadline:
+			return dragonboat.RequestResult{}, awaitNone, committed
 		}
-		return r, true
-	case <-time.After(timeout + 10*time.Second):
-		return dragonboat.RequestResult{}, false
 	}
 }
 
@@ -899,7 +1013,7 @@ func (res *Result) finalReads(p Plan) {
 		return
 	}
 	for _, h := range c.Hosts {
-		if !h.Up {
+		if !h.Up || (p.Witness && h.Idx == p.Hosts-1) {
 			continue
 		}
 		for k := 0; k < p.Keys; k++ {
@@ -1148,6 +1262,9 @@ func (res *Result) CheckStreams() {
 		_, applied := idxOf[cmd]
 		if (op.Outcome == "dropped" || op.Outcome == "rejected") && applied && op.Mode != "session" {
 			res.violateLocked("dropped-request-applied", "request %q reported %s but was applied at index %d", cmd, op.Outcome, idxOf[cmd])
+		}
+		if op.CommitNotified && !applied && res.Flags["final-read-ok"] > 0 {
+			res.violateLocked("committed-notified-never-applied", "request %q was reported Committed (outcome %s) but no replica ever applied it", cmd, op.Outcome)
 		}
 		if op.Outcome == "completed" && !applied {
 			res.violateLocked("completed-request-never-applied", "request %q reported Completed but no replica applied it", cmd)
